@@ -356,7 +356,9 @@ pub fn drive(args: &[String]) -> i32 {
             if rng.gen::<f64>() < 0.08 {
                 to_net.push((addr, bytes.clone())); // duplicated
             }
-            log(&mut iso, json!({"a": "feed", "addr": addr_name(addr), "bytes": vh_common::hex(&bytes)}), &mut f, &mut remotes, &mut rcb, &mut to_net);
+            // some feeds find the send callback failing: the answer (accept, resend, ...) is refused, the events must still come
+            let fail = rng.gen::<f64>() < 0.08;
+            log(&mut iso, json!({"a": "feed", "addr": addr_name(addr), "bytes": vh_common::hex(&bytes), "fail": fail}), &mut f, &mut remotes, &mut rcb, &mut to_net);
         } else if r < 0.50 {
             // a remote starts to connect / sends data / closes
             let c = &mut remotes[a as usize];
@@ -396,7 +398,7 @@ pub fn drive(args: &[String]) -> i32 {
                 let act = match st.as_str() {
                     "unconnected" => {
                         let x: f64 = rng.gen();
-                        if x < 0.7 { json!({"a": "accept", "pid": pid}) } else if x < 0.85 { json!({"a": "reject", "pid": pid, "r": 3, "fail": x < 0.74}) } else { json!({"a": "ignore", "pid": pid}) }
+                        if x < 0.7 { json!({"a": "accept", "pid": pid, "fail": x < 0.07}) } else if x < 0.85 { json!({"a": "reject", "pid": pid, "r": 3, "fail": x < 0.74}) } else { json!({"a": "ignore", "pid": pid}) }
                     }
                     "online" => {
                         let x: f64 = rng.gen();
